@@ -10,6 +10,7 @@
 // kind is run with generated arguments and EVERY allocation index 0 (no fault), 1..N, and
 // "all allocations from the first one fail" - each trial on a fresh rebuild of the state.
 #include "common/vf.hpp"
+#include <dirent.h>
 #include <cerrno>
 #include <csignal>
 #include <cinttypes>
@@ -61,6 +62,22 @@ static void addobs(Res &r, const void *p, size_t n) { r.obs.append((const char *
 FILE *g_devnull = nullptr;
 std::string g_tmpdir;
 
+// open file descriptors of the process (a descriptor left open on a failure path is a leak as well)
+// (descriptors the harness and the sanitizer runtime open lazily themselves - /dev/null for debug(),
+// the sanitizer log - are not counted)
+static int count_fds(std::string *what = nullptr) {
+    int n = 0; DIR *d = opendir("/proc/self/fd"); if (!d) return -1;
+    int self = dirfd(d);
+    while (struct dirent *e = readdir(d)) {
+        if (e->d_name[0] == '.') continue;
+        if (atoi(e->d_name) == self) continue;
+        char path[64], tgt[512]; snprintf(path, sizeof path, "/proc/self/fd/%s", e->d_name);
+        ssize_t k = readlink(path, tgt, sizeof tgt - 1); if (k < 0) continue; tgt[k] = 0;
+        if (!strncmp(tgt, "/dev/null", 9) || strstr(tgt, "/san.") || strstr(tgt, "/san-") || !strncmp(tgt, "pipe:", 5) || !strncmp(tgt, "/dev/pts", 8) || !strncmp(tgt, "/proc/", 6)) continue;
+        n++; if (what) { *what += tgt; *what += " "; }
+    }
+    closedir(d); return n;
+}
 struct Cont {
     virtual ~Cont() {}
     virtual const char *kind() = 0;
@@ -353,7 +370,7 @@ struct VecC : Cont {
             case 11: r.failed = !qvector_removeat(v, (int)a.idx); break;
             case 12: VOIDOP(qvector_reverse(v)); break;
             case 13: VOIDOP(qvector_clear(v)); break;
-            case 14: r.failed = !qvector_resize(v, (size_t)(a.sub % 12)); break;
+            case 14: r.failed = !qvector_resize(v, (a.sub % 16) == 15 ? (size_t)-1 - (size_t)(a.sub / 16 % 3) : (a.sub % 16) == 14 ? (size_t)-1 / objsize + (objsize > 1 ? 1 : 0) : (size_t)(a.sub % 12)); break;
             case 15: p = qvector_getfirst(v, a.newmem); r.failed = !p; if (p) { addobs(r, p, objsize); if (a.newmem) free(p); } break;
             case 16: p = qvector_getlast(v, a.newmem); r.failed = !p; if (p) { addobs(r, p, objsize); if (a.newmem) free(p); } break;
             case 17: p = qvector_getat(v, (int)a.idx, a.newmem); r.failed = !p; if (p) { addobs(r, p, objsize); if (a.newmem) free(p); } break;
@@ -546,6 +563,7 @@ void run_case(Src &s, Ctx &c) {
                 bool sticky = k == N + 1;
                 long kk = sticky ? 1 : k;
                 size_t live0 = vf_ledger_live();            // the undisturbed twin is still alive
+                int fds0 = kname == "qlog" ? -1 : count_fds();
                 Cont *t1 = T.build(kind, cfg, ts, prefix);
                 D d1{t1};
                 void *mx = t1->mutex();
@@ -604,6 +622,7 @@ void run_case(Src &s, Ctx &c) {
                 { Cont *dead = t1; t1 = nullptr; int sg = guarded([&] { dead->destroy(); }, 5); delete dead;
                   if (sg) c.fail(CRASH, (std::string("fault:crash-free:") + kname + ":" + opn[(size_t)op]).c_str(), "releasing the container crashed (signal %d) after %s.%s had an allocation failure", sg, kname.c_str(), opn[(size_t)op]); }
                 size_t live1 = vf_ledger_live();
+                if (fds0 >= 0) { int fds1 = count_fds(); if (fds1 > fds0) { std::string w; count_fds(&w); c.fail(LEAK, (std::string("fault:fd-leak:") + kname + ":" + opn[(size_t)op]).c_str(), "%s.%s with allocation %ld%s of %ld failing (%s): %d file descriptor(s) more are open after the call and the release of the container (open now: %s)", kname.c_str(), opn[(size_t)op], kk, sticky ? "+" : "", N, fdesc, fds1 - fds0, w.c_str()); } }
                 if (live1 > live0) { char dmp[200]; vf_ledger_dump(dmp, sizeof dmp); c.fail(LEAK, (std::string("fault:leak:") + kname + ":" + opn[(size_t)op]).c_str(), "%s.%s with allocation %ld%s of %ld failing (%s): %zu block(s) still allocated after the container was released", kname.c_str(), opn[(size_t)op], kk, sticky ? "+" : "", N, r1.failed ? "reported" : "survived", live1 - live0); }
             } catch (CaseFail &f) {
                 // a listed known finding: count it and keep exploring the remaining trials of this case
